@@ -4,6 +4,14 @@ Contracts on sharepoint2text/parsing/extractors/util/zip_bomb.py.  The spec
 predicate `spec_reject` is written from the property statement, not from the
 code: entry count, single size, total size, per-entry ratio, total ratio,
 non-empty entry with zero compressed size; directory entries ignored.
+
+Round 5: (1) "the configured limits" are under contract -- EXTRA `configuration` (C11_flow): field defaults of ZipBombLimits
+evaluated from the real class body == the documented configuration, the DEFAULT object, the `limits` parameter defaults, every
+guard call site forwards the configured limits; `limits_param(fn)` binds an omitted `limits` to what the real signature default
+denotes (C11Executor.config_object: module-level frozen-dataclass instance, field values evaluated; it may alias a caller's
+argument).  (2) C11Executor._filter_loop: an entry loop over a lazily filtered sequence (generator expression, one-line filter
+helper, filter / itertools.filterfalse) is executed as the loop-with-continue it is, under the LoopSpec of the original statement.
+Whatever is read off a code shape and not recognised is `unknown` (native replay decides), never a definite verdict.
 """
 import z3
 
